@@ -571,8 +571,40 @@ def path_atoms(path: Path, start: int = 0, stop: int = None, keep=()) -> dict:
         if _mentions_state(expanded) and min(trace + [pos]) <= fence:
             continue  # stale: read before other activities could run
         text = normalise_state_aliases(ast.unparse(expanded))
-        result[(key[0], text)] = event.data.get('value') == event.data.get('positive', True)
+        truth = event.data.get('value') == event.data.get('positive', True)
+        result[(key[0], text)] = truth
+        if key[0] == 'truth':
+            _decompose(expanded, truth, result)
     return result
+
+
+def _decompose(expr, truth: bool, result: dict):
+    """what the truth of a compound condition says about its parts:
+    ``not (a or b)`` makes a and b false, ``a and b`` makes both true"""
+    if isinstance(expr, ast.UnaryOp) and isinstance(expr.op, ast.Not):
+        _record(expr.operand, not truth, result)
+        return
+    if isinstance(expr, ast.BoolOp):
+        decisive = isinstance(expr.op, ast.And) == truth
+        if decisive:
+            for value in expr.values:
+                _record(value, truth, result)
+
+
+def _record(expr, truth: bool, result: dict):
+    if isinstance(expr, ast.Compare) and len(expr.ops) == 1 and \
+            isinstance(expr.ops[0], (ast.Is, ast.IsNot)) and \
+            isinstance(expr.comparators[0], ast.Constant) and \
+            expr.comparators[0].value is None:
+        is_none = truth == isinstance(expr.ops[0], ast.Is)
+        key, value = ('isnone', normalise_state_aliases(ast.unparse(expr.left))), is_none
+    else:
+        key, value = ('truth', normalise_state_aliases(ast.unparse(expr))), truth
+    if result.setdefault(key, value) != value:
+        # the parts of a compound condition disagree with what was tested directly:
+        # no execution takes this path
+        result[('infeasible', '')] = True
+    _decompose(expr, truth, result)
 
 
 _VALUE_TEXT = {}
@@ -915,3 +947,29 @@ def receiver_at(path: Path, event: Event):
     if isinstance(node, ast.Call) and isinstance(node.func, ast.Attribute):
         return text_at(path, event, node.func.value)
     return None
+
+
+def contradicts_constants(path: Path, upto: int = None) -> bool:
+    """some comparison on the path is, once locals are replaced by the constants that
+    reach them, a comparison of numbers whose recorded outcome is wrong (`0 > 0` taken as
+    true): the path is infeasible"""
+    upto = len(path.events) if upto is None else upto
+    for pos in range(upto):
+        event = path.events[pos]
+        if event.kind != 'test' or not isinstance(event.node, ast.Compare) or \
+                len(event.node.ops) != 1:
+            continue
+        seen = value_expr(path, pos, event.node)
+        if not isinstance(seen, ast.Compare):
+            continue
+        sides = [seen.left, seen.comparators[0]]
+        if not all(isinstance(x, ast.Constant) and isinstance(x.value, (int, float))
+                   and not isinstance(x.value, bool) for x in sides):
+            continue
+        a, b = sides[0].value, sides[1].value
+        op = type(seen.ops[0])
+        actual = {ast.Lt: a < b, ast.LtE: a <= b, ast.Gt: a > b, ast.GtE: a >= b,
+                  ast.Eq: a == b, ast.NotEq: a != b}.get(op)
+        if actual is not None and actual != bool(event.data.get('value')):
+            return True
+    return False
